@@ -274,7 +274,7 @@ def identical(a, b, st: St):
 def alloc(st: St, prefix: str, ty):
     """Allocate a fresh reference, distinct from everything allocated before."""
     r = smt.fresh_v(prefix)
-    st.assume(z3.Not(smt.Alloc0(r)), r != smt.NONE)
+    st.assume(z3.Not(smt.Alloc0(r)), r != smt.NONE, smt.SkFam(r) == 0)
     for o in st.fresh:
         st.assume(r != o)
     st.fresh.append(r)
